@@ -563,7 +563,19 @@ func (eng) execute(mode string, c *hx.Case) (*hx.Result, error) {
 		ackT = append(ackT, hx.CoqPair(hx.CoqN(id), hx.CoqList(ps, "N * N")))
 	}
 	sb.WriteString(hx.CoqList(ackT, "N * list (N * N)") + "\n  ")
-	sb.WriteString(hx.CoqBool(completed) + ")")
+	// survivor: some operator was deployed in two different generations (re-deployed in place)
+	survivor := false
+	opGens := map[string]string{}
+	for _, d := range l.Deploys {
+		parts := strings.SplitN(d, ":", 3)
+		if len(parts) == 3 {
+			if g, ok := opGens[parts[1]]; ok && g != parts[0] {
+				survivor = true
+			}
+			opGens[parts[1]] = parts[0]
+		}
+	}
+	sb.WriteString(hx.CoqBool(completed) + " " + hx.CoqBool(survivor) + ")")
 
 	// ---- tags / non-triviality
 	npub := 0
@@ -606,6 +618,9 @@ func (eng) execute(mode string, c *hx.Case) (*hx.Result, error) {
 	if len(l.Errors) > 0 {
 		tags = append(tags, "adapter-errors")
 	}
+	if survivor {
+		tags = append(tags, "survivor-redeployed-in-place")
+	}
 	tags = append(tags, fmt.Sprintf("generations=%d", min(ngen, 5)), fmt.Sprintf("published=%d", min(npub, 4)), fmt.Sprintf("workers=%d", w))
 	if !completed {
 		tags = append(tags, "NOT-COMPLETED")
@@ -635,6 +650,11 @@ func genSplits(r *hx.Rand, nsplits, maxPer, nkeys int) [][]recJ {
 	return out
 }
 
+// partial kills (a subset of the workers dies, the job and the other workers survive and are re-deployed in place) hit
+// the known finding code 101 (docs/C01.md "survivor redeploy") and are slow (wedged clusters), so only every 16th case
+// (thorough: every 10th) may contain them; VERIF_C01_PARTIAL=1 allows them everywhere.
+var partialKills = os.Getenv("VERIF_C01_PARTIAL") != ""
+
 func genCrash(r *hx.Rand, w int, allowPartial bool) *crashJ {
 	cr := &crashJ{}
 	switch {
@@ -654,7 +674,11 @@ func genCrash(r *hx.Rand, w int, allowPartial bool) *crashJ {
 }
 
 func genCase(r *hx.Rand, i int, tier string) *hx.Case {
+	partialKills := partialKills || (tier == "thorough" && i%10 == 5) || (tier != "thorough" && i%16 == 5)
 	w := r.Range(1, 3)
+	if partialKills {
+		w = r.Range(2, 3)
+	}
 	nsplits := r.Range(1, 4)
 	maxPer := 9
 	if tier == "thorough" {
@@ -695,13 +719,13 @@ func genCase(r *hx.Rand, i int, tier string) *hx.Case {
 		case 0, 1: // checkpoint, all acks permuted
 			ops = append(ops, hx.Op(opJ{Op: "ckpt", Perm: perm()}))
 		case 2: // crash during the checkpoint
-			cr := genCrash(r, curW, false)
+			cr := genCrash(r, curW, partialKills)
 			ops = append(ops, hx.Op(opJ{Op: "ckpt", Perm: perm(), CrashAfter: r.Intn(2 * curW), Crash: cr}))
 			if cr.Job {
 				curW = cr.Workers
 			}
 		case 3, 4: // crash (before the next checkpoint / right after the last one)
-			cr := genCrash(r, curW, false)
+			cr := genCrash(r, curW, partialKills)
 			ops = append(ops, hx.Op(opJ{Op: "crash", Crash: cr}))
 			if cr.Job {
 				curW = cr.Workers
@@ -709,7 +733,7 @@ func genCase(r *hx.Rand, i int, tier string) *hx.Case {
 		case 5: // checkpoint, more input in flight, crash
 			ops = append(ops, hx.Op(opJ{Op: "ckpt", Perm: perm()}))
 			feed()
-			cr := genCrash(r, curW, false)
+			cr := genCrash(r, curW, partialKills)
 			ops = append(ops, hx.Op(opJ{Op: "crash", Crash: cr}))
 			if cr.Job {
 				curW = cr.Workers
@@ -720,9 +744,9 @@ func genCase(r *hx.Rand, i int, tier string) *hx.Case {
 }
 
 func (eng) Generate(mode, tier string, r *hx.Rand) []*hx.Case {
-	n := 36
+	n := 160
 	if tier == "thorough" {
-		n = 400
+		n = 1500
 	}
 	var cs []*hx.Case
 	for i := 0; i < n; i++ {
